@@ -1167,6 +1167,11 @@ class App(falcon.app.App):
             if not await self._handle_exception(req, None, ex, params, ws=web_socket):
                 raise
 
+            # NOTE: A custom error handler may have dealt with the error
+            #   without closing the connection; do not leave the client
+            #   hanging in that case (this is a no-op if already closed).
+            await web_socket.close()
+
     def _prepare_middleware(  # type: ignore[override]
         self, middleware: List[object], independent_middleware: bool = False
     ) -> AsyncPreparedMiddlewareResult:
